@@ -274,18 +274,27 @@ def type_catalogue():
             pre="\ntype ytype\n real*8 n\n real*8, pointer :: v(:)\nend type\n",
             ut=f.StructureType("ytype", (("n", R), ("v", PA(4)))),
             rhs="\n${result}%n = -2*${y}%n\n${result}%v = -2*${y}%v\n", tname="ytype",
-            init="allocate(y0%v(4))\ny0%v = 1\ny0%n = 3\n", fini="deallocate(y0%v)\n"),
+            init="allocate(y0%v(4))\ny0%v = 1\ny0%n = 3\n", fini="deallocate(y0%v)\n", paths=[["y"], ["y", "v"]]),
         "struct(ptr array, ptr array)": dict(
             pre="\ntype ytype\n real*8, pointer :: v(:)\n real*8, pointer :: w(:)\nend type\n",
             ut=f.StructureType("ytype", (("v", PA(4)), ("w", PA(3)))),
             rhs="\n${result}%v = -2*${y}%v\n${result}%w = 3*${y}%w\n", tname="ytype",
-            init="allocate(y0%v(4))\nallocate(y0%w(3))\ny0%v = 1\ny0%w = 2\n", fini="deallocate(y0%v)\ndeallocate(y0%w)\n"),
+            init="allocate(y0%v(4))\nallocate(y0%w(3))\ny0%v = 1\ny0%w = 2\n", fini="deallocate(y0%v)\ndeallocate(y0%w)\n",
+            paths=[["y"], ["y", "v"], ["y", "w"]]),
         "struct(real, ptr struct(ptr array))": dict(
             pre="\ntype itype\n real*8, pointer :: v(:)\nend type\ntype ytype\n real*8 n\n type(itype), pointer :: inner\nend type\n",
             ut=f.StructureType("ytype", (("n", R), ("inner", f.PointerType(f.StructureType("itype", (("v", PA(3)),)))))),
             rhs="\n${result}%n = -2*${y}%n\n${result}%inner%v = -2*${y}%inner%v\n", tname="ytype",
             init="allocate(y0%inner)\nallocate(y0%inner%v(3))\ny0%inner%v = 1\ny0%n = 3\n",
-            fini="deallocate(y0%inner%v)\ndeallocate(y0%inner)\n"),
+            fini="deallocate(y0%inner%v)\ndeallocate(y0%inner)\n", paths=[["y"], ["y", "inner"], ["y", "inner", "v"]]),
+        # three levels: a structure holding a fixed-size array of structures, each owning a pointer member
+        "struct(real, array of struct(ptr array))": dict(
+            pre="\ntype ctype\n real*8, pointer :: v(:)\nend type\ntype ytype\n real*8 n\n type(ctype), dimension(2) :: cells\nend type\n"
+                "integer icell\n",
+            ut=f.StructureType("ytype", (("n", R), ("cells", f.ArrayType((2,), f.StructureType("ctype", (("v", PA(3)),)))))),
+            rhs="\n${result}%n = -2*${y}%n\ndo icell = 1, 2\n${result}%cells(icell)%v = -2*${y}%cells(icell)%v\nend do\n", tname="ytype",
+            init="allocate(y0%cells(1)%v(3))\nallocate(y0%cells(2)%v(3))\ny0%cells(1)%v = 1\ny0%cells(2)%v = 2\ny0%n = 3\n",
+            fini="deallocate(y0%cells(1)%v)\ndeallocate(y0%cells(2)%v)\n", paths=[["y"], ["y", "cells", "v"]]),
     }
 
 
@@ -351,6 +360,11 @@ def type_job(name):
     for i in alloc + deinit:
         if i[0] in ("allocate", "deallocate", "nullify") and i[1] not in paths:
             paths.append(i[1])
+    # the pointers the TYPE has (from its definition, not from the emitted text): a routine that forgets one of them
+    # must not shrink the object tree it is judged on
+    for q in T.get("paths", []):
+        if q not in paths:
+            paths.append(q)
     paths.sort(key=lambda q: (len(q), q))
     case = {"paths": paths, "alloc": alloc, "deinit": deinit}
     case["ref"] = None
